@@ -314,7 +314,11 @@ VH_AREA(explain) {
                     o << " " << l.instruction_targets.args.size();
                     for (double d : l.instruction_targets.args) o << " " << dbits(d);
                     o << " " << l.instruction_targets.target_range_start << " " << l.instruction_targets.target_range_end;
-                    o << tgts(l.instruction_targets.targets_in_range);
+                    if (l.instruction_targets.gate_type == GateType::MPAD) {
+                        // MPAD's targets are bit values, not qubits: no relabelling
+                        o << " " << l.instruction_targets.targets_in_range.size();
+                        for (const auto &t : l.instruction_targets.targets_in_range) o << " " << t.gate_target.data << coords_tok(t.coords);
+                    } else o << tgts(l.instruction_targets.targets_in_range);
                     if (l.flipped_measurement.measurement_record_index != UINT64_MAX) st.hit(l.flipped_pauli_product.empty() ? "loc.measurement_flip" : "loc.heralded_pauli");
                     else st.hit("loc.pauli");
                     if (l.stack_frames.size() > 1) st.hit("loc.inside_repeat.depth" + std::to_string(l.stack_frames.size() - 1));
